@@ -607,6 +607,62 @@ def r15_pack_table_covers_every_id(cx):
           "the pack table has max_id + 1 slots with the addition done after widening to usize (16-bit additions on the id at lines %s)" % narrow, ln=rs[0][1].get("ln"))
 
 
+def r16_cluster_index_fits(cx):
+    """a content info stores the index of its cluster on 32 - 12 = 20 bits (`cluster_index << 12`): wherever the creator
+    makes a new cluster, the index it gives it has been compared with a constant no larger than 2^20 - 1 on the only
+    path that reaches `ClusterCreator::new` (the 1048577th cluster otherwise wraps to index 0 and its contents are
+    answered with the bytes of another cluster, with no error on either side)"""
+    F = cx.F
+    bits = 32 - ref.REF["sizes"]["ContentInfo.blob_bits"]
+    n = 0
+    for f in F.live_fns:
+        if "blocks" not in f or not re.search(r"creator::content_pack::", f["name"]):
+            continue
+        b = None
+        for i, blk in enumerate(f["blocks"]):
+            t = blk["t"]
+            if blk.get("cleanup") or not call_is(t, r"cluster::ClusterCreator::new$"):
+                continue
+            b = b or F.body(f)
+            srcs = {x for x in b.origins(t["args"][0]) if x[0] in ("call", "field") or (x[0] == "param" and x[1] != 1)}
+            gs = upper_bound_guards(b, i, srcs)
+            n += 1
+            best = min((c for _, c in gs), default=None)
+            cx.ob("R16", "R16/%s/cluster-index-fits" % f["name"].split("::")[-1], best is not None and best <= (1 << bits) - 1, f,
+                  "the index given to a new cluster is at most %s on the path that creates it (field width: %d bits, i.e. at most %d)" % (best, bits, (1 << bits) - 1), ln=t.get("ln"))
+    if not n:
+        raise AnchorLost("no call of ClusterCreator::new in the content pack creator")
+
+
+def r17_content_rewound_before_queued(cx):
+    """a content is its whole reader (`size()` is the whole length, the offsets of the cluster are computed from it):
+    on every path of ContentPackCreator::add_content, from the entry and from every read of the content, the reader is
+    put back at its start (rewind / seek(Start(0))) before it is handed to the cluster"""
+    F = cx.F
+    f = F.one(impl_self="ContentPackCreator", item="add_content", closure=False, trait="")
+    b = F.deep_body(f, only=r"content_pack::creator::ContentPackCreator")
+    queue = b.calls(r"cluster::ClusterCreator::add_content$")
+    if not queue:
+        raise AnchorLost("ContentPackCreator::add_content no longer hands the content to ClusterCreator::add_content")
+    rew = set()
+    for i, t in b.calls(r"Seek>::seek$", r"Seek>::rewind$"):
+        if call_is(t, r"rewind$"):
+            rew.add(i)
+        else:
+            v, opnd = streams.seek_variant(b, t)
+            if v == "Start" and op_const_deep(b, opnd) == 0:
+                rew.add(i)
+    reads = [i for i, _ in b.calls(r"Read>::read_to_end$", r"Read>::read$", r"Read>::read_exact$")]
+    err = b.error_blocks()
+    bad = []
+    for start, what in [(0, "entry")] + [(t_, "read at line %s" % b.term(r).get("ln")) for r in reads for t_ in [b.term(r).get("t")] if t_ is not None]:
+        r = b.reachable(start, avoid=rew | err)
+        if any(q in r for q, _ in queue) and start not in rew:
+            bad.append(what)
+    cx.ob("R17", "R17/add_content/rewound-before-queued", not bad, f,
+          "every path to ClusterCreator::add_content passes a rewind / seek(Start(0)) of the content (%d sites); paths without one start at: %s" % (len(rew), bad), ln=queue[0][1].get("ln"))
+
+
 def r10_witness(cx):
     """type-level: ContentPackCreator::finalize consumes the creator (no insertion after finalisation)"""
     import witness
@@ -637,4 +693,6 @@ RULES = [
     ("R13", r13_creator_addresses, 3),
     ("R14", r14_dedup_adder, 3),
     ("R15", r15_pack_table_covers_every_id, 1),
+    ("R16", r16_cluster_index_fits, 1),
+    ("R17", r17_content_rewound_before_queued, 1),
 ]
